@@ -281,4 +281,97 @@ theorem run_noSkip (c : Cfg) (ins : List In) (t : Task) (h : ∀ i ∈ ins, i.de
     rw [step_noSkip c t i (h i (by simp)), ih _ (fun j hj => h j (by simp [hj]))]
     rfl
 
+/-! ### the batch loop after the fix -/
+
+theorem batchNew_count_ge (M : Nat) (l : List Blk) (b : Batch) : b.count ≤ (batchNew M b l).count := by
+  induction l generalizing b with
+  | nil => simp [batchNew]
+  | cons x rest ih =>
+    cases x with
+    | none => simp only [batchNew]; have := ih { b with count := b.count + 1 }; simp only at this; omega
+    | some sz =>
+      simp only [batchNew]
+      split
+      · exact Nat.le_refl _
+      · have := ih { total := b.total + sz, incl := b.incl ++ [b.count], count := b.count + 1 }
+        simp only at this; omega
+
+theorem batchNew_incl_ne_nil (M : Nat) (l : List Blk) (b : Batch) (h : b.incl ≠ []) : (batchNew M b l).incl ≠ [] := by
+  induction l generalizing b with
+  | nil => simpa [batchNew] using h
+  | cons x rest ih =>
+    cases x with
+    | none => simp only [batchNew]; exact ih _ h
+    | some sz =>
+      simp only [batchNew]
+      split
+      · exact h
+      · exact ih _ (by simp)
+
+/-- what is appended is exactly the matching blocks among the `count` blocks the batch went over. -/
+theorem batchNew_incl (M : Nat) (l : List Blk) (b : Batch) :
+    (batchNew M b l).incl = b.incl ++ matchPos b.count (l.take ((batchNew M b l).count - b.count)) := by
+  induction l generalizing b with
+  | nil => simp [batchNew, matchPos]
+  | cons x rest ih =>
+    cases x with
+    | none =>
+      simp only [batchNew]
+      have hge := batchNew_count_ge M rest { b with count := b.count + 1 }
+      have := ih { b with count := b.count + 1 }
+      simp only at this hge
+      obtain ⟨k, hk⟩ : ∃ k, (batchNew M { b with count := b.count + 1 } rest).count = b.count + 1 + k :=
+        ⟨_, (Nat.add_sub_cancel' hge).symm⟩
+      rw [this, hk]
+      have e1 : b.count + 1 + k - (b.count + 1) = k := by omega
+      have e2 : b.count + 1 + k - b.count = k + 1 := by omega
+      rw [e1, e2]
+      simp [matchPos]
+    | some sz =>
+      simp only [batchNew]
+      split
+      · simp [matchPos]
+      · have hge := batchNew_count_ge M rest { total := b.total + sz, incl := b.incl ++ [b.count], count := b.count + 1 }
+        have := ih { total := b.total + sz, incl := b.incl ++ [b.count], count := b.count + 1 }
+        simp only at this hge
+        obtain ⟨k, hk⟩ : ∃ k, (batchNew M { total := b.total + sz, incl := b.incl ++ [b.count], count := b.count + 1 } rest).count
+            = b.count + 1 + k := ⟨_, (Nat.add_sub_cancel' hge).symm⟩
+        rw [this, hk]
+        have e1 : b.count + 1 + k - (b.count + 1) = k := by omega
+        have e2 : b.count + 1 + k - b.count = k + 1 := by omega
+        rw [e1, e2]
+        simp [matchPos]
+
+/-- with nothing appended yet, a non-empty range is advanced over by at least one block. -/
+theorem batchNew_progress_from (M : Nat) (l : List Blk) (b : Batch) (h0 : b.total = 0) (hl : l ≠ []) :
+    b.count + 1 ≤ (batchNew M b l).count := by
+  cases l with
+  | nil => exact absurd rfl hl
+  | cons x rest =>
+    cases x with
+    | none =>
+      simp only [batchNew]
+      have := batchNew_count_ge M rest { b with count := b.count + 1 }
+      simpa using this
+    | some sz =>
+      simp only [batchNew, h0]
+      have := batchNew_count_ge M rest { total := 0 + sz, incl := b.incl ++ [b.count], count := b.count + 1 }
+      simpa using this
+
+/-- with nothing appended yet, the first matching block of the range is appended whatever its size. -/
+theorem batchNew_first_match_from (M : Nat) (l : List Blk) (b : Batch) (h0 : b.total = 0)
+    (hm : ∃ sz, some sz ∈ l) : (batchNew M b l).incl ≠ [] := by
+  induction l generalizing b with
+  | nil => obtain ⟨_, h⟩ := hm; simp at h
+  | cons x rest ih =>
+    cases x with
+    | none =>
+      simp only [batchNew]
+      refine ih _ h0 ?_
+      obtain ⟨sz, h⟩ := hm
+      exact ⟨sz, by simpa using h⟩
+    | some sz =>
+      simp only [batchNew, h0]
+      exact batchNew_incl_ne_nil M rest _ (by simp)
+
 end C32
